@@ -68,3 +68,12 @@ package prelude
 //@   effectfree
 //@ func github.com/cosmos/cosmos-sdk/telemetry.MeasureSince
 //@   effectfree
+// sha256 objects are modelled by the engine (bytes written so far); for effect analysis they touch nothing else
+//@ func (hash.Hash).Write
+//@   effectfree
+//@ func (hash.Hash).Sum
+//@   effectfree
+//@ func (io.Writer).Write
+//@   effectfree
+//@ func crypto/sha256.New
+//@   effectfree
